@@ -303,11 +303,51 @@ fn abstract_item(r: &Result<ProguardRecord<'_>, proguard::ParseError<'_>>) -> Va
     }
 }
 
-fn meta_event(sink: &mut Sink, src: &[u8]) {
+fn meta_event(sink: &mut Sink, src: &[u8], boundary: Option<usize>) {
     let items: Vec<Value> = ProguardMapping::new(src).iter().map(|r| abstract_item(&r)).collect();
     let src2 = src.to_vec();
     let got = guarded(move || crate::replay::meta_answers(&src2)).unwrap_or_else(|p| json!({"panic": p}));
     sink.emit(json!({"items": items, "got": got, "len": src.len()}));
+    // histories: a sub-mapping (section) answers for its own bytes, whether it is taken before or after
+    // the parent was asked, asked once or twice, cloned or not
+    let lfs: Vec<usize> = src.iter().enumerate().filter(|(_, b)| **b == b'\n').map(|(i, _)| i + 1).collect();
+    if lfs.len() >= 2 && src.len() <= 4000 {
+        let mut cuts = vec![(0, lfs[lfs.len() / 2]), (lfs[lfs.len() / 2], src.len()), (lfs[0], lfs[lfs.len() - 1])];
+        if let Some(m) = boundary {
+            cuts = vec![(0, m), (m, src.len())];
+        }
+        for (a, b) in cuts {
+            if a >= b {
+                continue;
+            }
+            let sub = &src[a..b];
+            let items: Vec<Value> = ProguardMapping::new(sub).iter().map(|r| abstract_item(&r)).collect();
+            let src2 = src.to_vec();
+            let answers = guarded(move || {
+                let parent = ProguardMapping::new(&src2);
+                let early = parent.section(a..b);
+                let _ = crate::replay::meta_answers_of(&parent);
+                let _ = crate::replay::meta_answers_of(&parent);
+                let late = parent.section(a..b);
+                vec![
+                    crate::replay::meta_answers_of(&late),
+                    crate::replay::meta_answers_of(&late),
+                    crate::replay::meta_answers_of(&early),
+                    crate::replay::meta_answers_of(&parent.clone().section(a..b)),
+                    crate::replay::meta_answers_of(&late.clone()),
+                ]
+            })
+            .unwrap_or_else(|p| vec![json!({"panic": p})]);
+            // every distinct answer is judged by the specification (they must all be the fold of `items`)
+            let mut seen: Vec<Value> = vec![];
+            for got in answers {
+                if !seen.contains(&got) {
+                    sink.emit(json!({"items": items, "got": got, "len": sub.len(), "section": [a, b], "distinct_answers_so_far": seen.len() + 1}));
+                    seen.push(got);
+                }
+            }
+        }
+    }
 }
 
 /// C19: metadata answers with the item stream they must be a fold of
@@ -315,7 +355,7 @@ fn meta(sink: &mut Sink, o: &Opts) {
     let mut rng = Rng::new(o.seed);
     for f in &o.files {
         let src = std::fs::read(f).expect("corpus file");
-        meta_event(sink, &src);
+        meta_event(sink, &src, None);
     }
     for _ in 0..o.n {
         let mut src = vec![];
@@ -336,7 +376,21 @@ fn meta(sink: &mut Sink, o: &Opts) {
         if rng.chance(1, 4) {
             src = gen::mutate_file(&mut rng, &src);
         }
-        meta_event(sink, &src);
+        meta_event(sink, &src, None);
+    }
+    // two blocks that differ in every answer, cut exactly between them: what a sub-mapping says must not
+    // depend on what its parent (or sibling) was asked before
+    let blocks: [&[u8]; 4] = [
+        b"# compiler: R8\n# min_api: 21\na.B -> a:\n    void m() -> b\n    int f -> c\n",
+        b"x.Y -> b:\n    1:2:void n():3:4 -> c\n    5:5:void o() -> d\n",
+        b"# compiler_version: 9\nnot a record\n",
+        b"p.Q -> c:\n",
+    ];
+    for x in blocks {
+        for y in blocks {
+            let src = [x, y].concat();
+            meta_event(sink, &src, Some(x.len()));
+        }
     }
 }
 
@@ -709,6 +763,27 @@ fn cache(sink: &mut Sink, o: &Opts) {
                 if let Ok(b) = crate::handles::write_cache(src) {
                     copies.push(b);
                 }
+                // history: the caller's read buffer is reused: a different mapping of the same length is
+                // written from the same address first, then the buffer is refilled in place with this one
+                {
+                    let mut buf: Vec<u8> = src.clone();
+                    for b in buf.iter_mut() {
+                        // a same-length edit that keeps the grammar: swap two letters throughout
+                        *b = match *b { b'a' => b'o', b'o' => b'a', b'e' => b'u', b'u' => b'e', x => x };
+                    }
+                    let _ = guarded(std::panic::AssertUnwindSafe(|| crate::handles::write_cache(&buf)));
+                    buf.copy_from_slice(src);
+                    match guarded(std::panic::AssertUnwindSafe(|| crate::handles::write_cache(&buf))) {
+                        Ok(Ok(b)) => copies.push(b),
+                        _ => copies.push(vec![]),
+                    }
+                    // and once more after dropping and re-allocating a buffer of the same size
+                    drop(buf);
+                    let again: Vec<u8> = src.clone();
+                    if let Ok(b) = crate::handles::write_cache(&again) {
+                        copies.push(b);
+                    }
+                }
                 // history: a write that fails at sink call i (and one whose sink panics) must not influence
                 // the writes that follow it in the same process
                 for fail_at in [0usize, 1, 2, 3, 5, 8] {
@@ -790,14 +865,57 @@ fn cache(sink: &mut Sink, o: &Opts) {
 /// interrupted at i, random scripts)
 fn sinks(sink: &mut Sink, o: &Opts) {
     let mut rng = Rng::new(o.seed);
+    // schedules generated by TLC from MC_CacheIO (one sink response per call): run against the real
+    // writer; what the model predicted for ITS call sequence is carried along for information only,
+    // the recorded run is judged by CacheIO!RecordedProtocol like every other one
+    if let Some(cases) = opt_value(o, "--cases") {
+        let srcs: [&[u8]; 2] = [b"a.B -> a:\n    void m() -> b\n", b"# {\"id\":\"sourceFile\",\"fileName\":\"F.kt\"}\nx.Y -> b:\n    1:2:int f(long):3:4 -> c\np.Q -> c:\n"];
+        for (idx, line) in std::fs::read_to_string(cases).unwrap().lines().enumerate() {
+            if line.trim().is_empty() {
+                continue;
+            }
+            let c: Value = serde_json::from_str(line).unwrap();
+            let script: Vec<i64> = c["schedule"].as_array().unwrap().iter().map(|x| x.as_i64().unwrap()).collect();
+            let rest = if c["policy"]["kind"] == "cap" { c["policy"]["k"].as_i64().unwrap() } else { 1 << 30 };
+            for (m, src) in srcs.iter().enumerate() {
+                let out = crate::sink::run(src, script.clone(), rest);
+                let mut ev = crate::sink::event(&out);
+                ev["case"] = json!(idx);
+                if m == 0 {
+                    ev["model"] = json!({"total": c["total"], "ok": c["want"]["ok"], "failed": c["want"]["failed"], "sink_len": c["want"]["sink_len"]});
+                }
+                sink.emit(ev);
+            }
+        }
+    }
     for k in 0..o.n {
         let cfg = gen::MapCfg { max_classes: 1 + k % 4, max_members: k % 5, wild: false, noise: false };
-        let src = if k % 5 == 0 { gen::mapping_long_strings(&mut rng) } else { gen::mapping(&mut rng, &cfg) };
+        // every seventh mapping is large (hundreds of classes): sections of several KiB, so that writers
+        // which batch or buffer sections behind a size threshold are exercised too
+        let big = k % 7 == 3;
+        let src = if big {
+            gen::mapping_many_classes(&mut rng, 150 + 50 * (k % 5))
+        } else if k % 5 == 0 {
+            gen::mapping_long_strings(&mut rng)
+        } else {
+            gen::mapping(&mut rng, &cfg)
+        };
         let probe = crate::sink::run(&src, vec![], 1 << 30);
         let ncalls = probe.sink.calls.len().max(1);
         let mut scripts: Vec<(Vec<i64>, i64)> = vec![];
-        for cap in 1..=16 {
-            scripts.push((vec![], cap));
+        if big {
+            for cap in [13i64, 1000, 4095, 4097] {
+                scripts.push((vec![], cap));
+            }
+            // short exactly once at a late call, too
+            for _ in 0..6 {
+                let i = rng.below(ncalls);
+                scripts.push(([vec![1 << 30; i], vec![rng.range(1, 3) as i64]].concat(), 1 << 30));
+            }
+        } else {
+            for cap in 1..=16 {
+                scripts.push((vec![], cap));
+            }
         }
         for i in 0..ncalls.min(14) {
             scripts.push(([vec![1 << 30; i], vec![rng.range(1, 3) as i64]].concat(), 1 << 30));
@@ -1023,7 +1141,7 @@ fn xver(sink: &mut Sink, o: &Opts) {
     }
     for k in 0..o.n {
         let cfg = gen::MapCfg { max_classes: 1 + k % 6, max_members: 1 + k % 7, wild: false, noise: true };
-        srcs.push(if k % 9 == 8 { gen::mapping_long_strings(&mut rng) } else if k % 9 == 7 { gen::mapping_many_classes(&mut rng, 30) } else { gen::mapping(&mut rng, &cfg) });
+        srcs.push(if k % 9 == 8 { gen::mapping_long_strings(&mut rng) } else if k % 9 == 7 { gen::mapping_many_classes(&mut rng, 30) } else if k % 9 == 6 { gen::mapping_big_class(&mut rng) } else { gen::mapping(&mut rng, &cfg) });
     }
     for (sid, src) in srcs.iter().enumerate() {
         let uni = gen::universe(src);
@@ -1408,6 +1526,22 @@ fn threads_text(sink: &mut Sink, o: &Opts) {
         for _ in 0..4 {
             work.push(json!({"t": "text", "text": enc::s(&gen::trace_text(&mut rng, &uni))}));
             work.push(json!({"t": "sig", "sig": enc::s(&gen::descriptor(&mut rng, &uni))}));
+        }
+        if sid < 2 {
+            // descriptors naming hundreds of distinct classes (some of them mapped): whatever the library
+            // remembers between calls, bounded or not, is shared by all threads here
+            for part in 0..2 {
+                let mut sig = String::from("(");
+                for j in 0..(300 + 40 * part) {
+                    if j % 25 == 0 && !uni.classes.is_empty() {
+                        sig.push_str(&format!("L{};", rng.pick_ref(&uni.classes).replace('.', "/")));
+                    } else {
+                        sig.push_str(&format!("[Lq{}/r/C{};", part, j));
+                    }
+                }
+                sig.push_str(")Lq/R;");
+                work.push(json!({"t": "sig", "sig": enc::s(&sig)}));
+            }
         }
         let bytes = match crate::handles::write_cache(src) {
             Ok(b) => b,
